@@ -17,20 +17,22 @@ type lineLimitReader struct {
 
 	curLineLength int
 
-	// readErr is the error the underlying Reader returned last, if any. The
-	// buffered reader above drops it when it already holds part of a line.
+	// readErr is the error the underlying Reader returned from its most
+	// recent Read, if any. The buffered reader above drops it when it already
+	// holds part of a line.
 	readErr error
+	// lastOctet is the last octet the underlying Reader has delivered.
+	lastOctet byte
 }
 
-// takeReadErr returns the error the underlying Reader reported since the last
-// call, if any, and forgets it. Safe to call on a nil reader.
-func (r *lineLimitReader) takeReadErr() error {
-	if r == nil {
+// cutShort returns the error that ended the input in the middle of a line, if
+// that is what happened: the underlying Reader has failed and the last octet
+// it delivered does not end a line. Safe to call on a nil reader.
+func (r *lineLimitReader) cutShort() error {
+	if r == nil || r.lastOctet == '\n' {
 		return nil
 	}
-	err := r.readErr
-	r.readErr = nil
-	return err
+	return r.readErr
 }
 
 // setLimit changes the limit. Octets seen before the change (read ahead while
@@ -65,8 +67,11 @@ func (r *lineLimitReader) Read(b []byte) (int, error) {
 	}
 
 	n, err := r.R.Read(b)
+	if n > 0 {
+		r.lastOctet = b[n-1]
+	}
+	r.readErr = err
 	if err != nil {
-		r.readErr = err
 		return n, err
 	}
 
